@@ -40,7 +40,17 @@ func ParseDateTime(value string) (DateTime, error) {
 	value = strings.TrimPrefix(value, "@")
 	for _, l := range dateTimeLayouts {
 		if t, err = time.Parse(l, value); err == nil {
-			return DateTime{t, layout(l)}, nil
+			// time.Parse accepts a fractional second even if the layout has none;
+			// keep it (to the millisecond) in the precision so that it is not hidden.
+			if t.Nanosecond() != 0 {
+				switch l {
+				case dtSecondLayoutTZ:
+					l = dtMillisecondLayoutTZ
+				case dtSecondLayout:
+					l = dtMillisecondLayout
+				}
+			}
+			return DateTime{t.Truncate(time.Millisecond), layout(l)}, nil
 		}
 	}
 	return DateTime{}, fmt.Errorf("unable to parse DateTime '%s': %w", value, err)
